@@ -18,6 +18,11 @@ CHECKS.update({
    text="TLC proves, with deadlines firing at every point, MutualExclusion, NoMisroute, OkIsOwn (a timeout is never success), NoLeak, NoOrphan, TxCountBound, TxCountExact under the property's transmit-promptness assumption, and the liveness property Resolves (never hanging); band B without the cut reproduces the listed known finding from a TLC counterexample executed on the real code. Seeded and TLC-generated schedules on the real loop are validated against the specification and judged by the monitor (transmission count, byte-identical retransmissions, no foreign data, no leak, no panic).",
    note="Known finding F4 (known_findings.json) is cut in band A and must be the only thing band B shows; virtual per-task clocks; retries 0..3."),
 })
+CHECKS.update({
+ "C04": dict(engine="framebuild", section="6/C04",
+   text="FrameBuild.tla models push_pdu / push_pdu_slice_rest / mark_sendable over an abstract datagram list and defines Encode, an independent byte-level encoder of the EtherCAT frame. TLC enumerates every push program over an operation alphabet (all 11 command kinds, both address forms, lengths and overrides around the remaining space, fill-the-rest 0..2*capacity) for frame sizes from the 28-byte minimum, proves NeverExceedsCapacity, LengthFieldExact, WellFormed (datagrams tile the payload, more-follows on all but the last, zero working counter and IRQ) and Headers on the model, and prints each program; the harness executes each program, and seeded programs for every frame size up to 1514, on a real CreatedFrame; TLC (FrameBuildTrace) then requires every answer of every push and every transmitted byte to equal ApplyOp/Encode.",
+   note="The TLA+ Encode operator is the trusted independent encoder; datagram indices are taken from the returned handles; frame sizes come from a const-generic table (28..64, then selected sizes up to 1514)."),
+})
 NOT_BUILT = {}
 def main():
     props = [json.loads(l) for l in open(os.path.join(V, "properties.jsonl"))]
@@ -51,6 +56,8 @@ def main():
             add_only=True,
         ),
         engines=[
+            dict(name="framebuild", path="checks/framebuild.py", serves_properties=["C04"],
+                 kind_free_text="FrameBuild.tla + FrameBuildMC/Trace; harness framebuild (push programs on a real CreatedFrame)"),
             dict(name="pduloop", path="checks/pduloop.py", serves_properties=[p for p in ["C01","C02","C03","C06"] if p in CHECKS],
                  kind_free_text="PduLoop.tla + PduLoopMC/Trace/Monitor; harness vsched + pduloop (token scheduler over OS threads, virtual embassy-time clock)"),
         ],
